@@ -437,3 +437,6 @@ _app("C06", "text", " Staging on DAGs of any size (coq/proofs/FitSem_dag_proofs.
 _app("C07", "text", " Model.run's loop over the sequences is translated on every run too (tools/vlib/py2coq_mrun2.py -> coq/gen/Gen_mrun2.v) and proved equal to the fold of run_op over the sequences "
      "under the outer with_state (C07_generated_model_run_seqs); to_data_mapping / fold_mapping stay on the hand model coq/model/Mapping.v + correspondence.")
 _app("C03", "text", " The generated link raises ValueError iff some visited (sender output, receiver input) pair joins two initialised nodes of different dimensions (C03_generated_link_dim_clash).")
+_app("C03", "text", " Model.update_graph is on tie (T) as well (tools/vlib/py2coq_upd.py -> coq/gen/Gen_update.v; graph part translated, bookkeeping tail pinned): its node / edge sets, Concat insertion "
+     "and entries / exits equal the hand model's, the order is the generated topological_sort's on exactly these (C03_generated_update_graph_is_model).")
+_app("C07", "text", " With NoDup ids the generated Model.run is exactly Mapping.run_seqs (coq/proofs/Gen_mrun2_seqs.v, C07_generated_model_run_is_run_seqs; functional extensionality for environment equality).")
